@@ -1270,6 +1270,9 @@ var (
 	// CREATE2(value 0, init code = one STOP byte, salt 0) — called with its own CREATE2 child address it funds the
 	// address first and deploys a contract there afterwards, in one transaction
 	rtFactory = ethcmn.FromHex("0x6000600060006000346000355af150" + "6000600160006000f550" + "00")
+	// runtime that writes its execution environment into storage, one slot each: GASLIMIT, NUMBER, TIMESTAMP, COINBASE,
+	// DIFFICULTY, GASPRICE, ORIGIN, GAS, BLOCKHASH(NUMBER-1) — whatever the node feeds the VM becomes part of the state
+	rtEnv = ethcmn.FromHex("0x45600055" + "43600155" + "42600255" + "41600355" + "44600455" + "3a600555" + "32600655" + "5a600755" + "6001430340600855" + "00")
 )
 
 // RtFactory is exported for the checks that classify recipients by code.
@@ -1322,7 +1325,7 @@ func (g *Gen) OLVM() txgen.Tx {
 		a.Fee.Gas = int64(rapid.SampledFrom([]int{21000, 21000, 50000, 20999}).Draw(g.T, "gas"))
 		tags = append(tags, "olvm-transfer")
 	case 2: // create
-		rt := rapid.SampledFrom([][]byte{rtStore, rtRevert, rtLoop, rtKill, rtLog, rtFactory}).Draw(g.T, "rt")
+		rt := rapid.SampledFrom([][]byte{rtStore, rtRevert, rtLoop, rtKill, rtLog, rtFactory, rtEnv, rtEnv}).Draw(g.T, "rt")
 		a.Data = initCode(rt)
 		if len(rt) == len(rtFactory) {
 			factoryNote = ":factory"
